@@ -195,6 +195,23 @@ class FilterSuite(Suite):
             if not paths or len(paths) != len(tree):
                 continue
             op = {"op": "filter", "src": {"kind": "mem", "tree": tree}}
+            deep3 = [q for q in paths if q.count(b"/") >= 2]
+            if deep3 and rng.random() < 0.08:
+                # a matched directory D below an ancestor A that the patterns leave pending, and a map function that drops D itself
+                # (or rewrites / skips A) while entries inside D are kept: A has to be reported before the first entry below it
+                cs = rng.choice(deep3).split(b"/")
+                esc = lambda c: b"".join(b"\\" + bytes([x]) if x in b"*?[]\\" else bytes([x]) for x in c)
+                D = b"/".join(cs[:-1])
+                Dp = b"/".join(esc(c) for c in cs[:-1])
+                op["include"] = [hx(x) for x in rng.choice([[Dp], [Dp, Dp + b"/*"], [Dp + b"/**", Dp], [b"*/" * (len(cs) - 2) + esc(cs[-2])]])]
+                mp = [[hx(D), "exclude"]]
+                if rng.random() < 0.5:
+                    mp.append([hx(cs[0]), rng.choice(["keep", "chown", "skipdir"])])
+                    if mp[-1][1] == "chown":
+                        mp[-1].append(4242)
+                op["map"] = mp
+                ops.append(op)
+                continue
             r = rng.random()
             pl = (lambda neg_p: nested_list(rng, paths)) if rng.random() < 0.25 else (lambda neg_p: pattern_list(rng, paths, neg_p))
             if r < 0.4:
